@@ -13,6 +13,8 @@ pub mod c16;
 pub mod c19;
 pub mod c20;
 pub mod c21;
+pub mod c22;
+pub mod c23;
 pub mod c02;
 pub mod c09;
 pub mod c10;
@@ -56,6 +58,8 @@ pub fn registry() -> Vec<Box<dyn DynProp>> {
         Box::new(Adapter(Arc::new(conc::C24))),
         Box::new(Adapter(Arc::new(c19::C19))),
         Box::new(Adapter(Arc::new(c21::C21))),
+        Box::new(Adapter(Arc::new(c22::C22))),
+        Box::new(Adapter(Arc::new(c23::C23))),
         Box::new(Adapter(Arc::new(c11::C11))),
         Box::new(Adapter(Arc::new(c20::C20))),
         Box::new(Adapter(Arc::new(c29::C29))),
